@@ -554,6 +554,18 @@ var AncestorLoop = errors.New("ancestor loop detected")
 
 // DoAncestors calls the given function on this location and all of its ancestors in depth-first order.
 func (loc *Location) DoAncestors(ctx *Context, fn func(*Location) error) error {
+	return loc.doAncestors(ctx, fn, make(map[string]bool))
+}
+
+// doAncestors does the work for DoAncestors.  The given path holds
+// the names of the locations on the current chain of parents, which
+// is how a loop that goes through other locations is detected.
+func (loc *Location) doAncestors(ctx *Context, fn func(*Location) error, path map[string]bool) error {
+	if path[loc.Name] {
+		return AncestorLoop
+	}
+	path[loc.Name] = true
+	defer delete(path, loc.Name)
 
 	parents, err := loc.getParents(ctx)
 	if err != nil {
@@ -585,7 +597,7 @@ func (loc *Location) DoAncestors(ctx *Context, fn func(*Location) error) error {
 			if err != nil {
 				return err
 			}
-			if err = p.DoAncestors(ctx, fn); err != nil {
+			if err = p.doAncestors(ctx, fn, path); err != nil {
 				return err
 			}
 		}
